@@ -155,6 +155,39 @@ def annotation_case(args):
     return args[:3] + (style,), errs
 
 
+def flag_history_case(args):
+    """a partly incomplete annotation (gene GB0 has exon lines only: --complete_genedb ignores it, a run without the option infers its
+       records): run A with one value of --complete_genedb fills the per-user cache, run B with the OTHER value follows under the same
+       HOME; B must give what it gives with a cold cache (run C, other HOME)"""
+    first_complete, scratch = args
+    from vlib import syn, run
+    w = the_world()
+    d = os.path.join(scratch, "c12f_%d" % first_complete)
+    shutil.rmtree(d, ignore_errors=True)
+    paths = syn.materialise(w, d)
+    lines = [l for l in open(paths["gtf"]) if not ('gene_id "GB0"' in l and l.split("\t")[2] in ("gene", "transcript"))]
+    open(paths["gtf"], "w").writelines(lines)
+    errs = []
+
+    def go(out, home, complete, log):
+        os.makedirs(home, exist_ok=True)
+        argv = ["--output", out, "--reference", paths["ref"], "--bam", paths["bam"], "--data_type", "nanopore", "--prefix", "OUT",
+                "--threads", "1", "--genedb", paths["gtf"]] + (["--complete_genedb"] if complete else [])
+        return run.run_isoquant(argv, home, os.path.join(d, log))
+    h1, h2 = os.path.join(d, "h1"), os.path.join(d, "h2")
+    rcs = [go(os.path.join(d, "a"), h1, first_complete, "a.txt"), go(os.path.join(d, "b"), h1, not first_complete, "b.txt"),
+           go(os.path.join(d, "c"), h2, not first_complete, "c.txt")]
+    if any(rcs):
+        errs.append(("run-failed", "exit codes %s" % rcs))
+    else:
+        tb, tc = run.read_tree(os.path.join(d, "b", "OUT")), run.read_tree(os.path.join(d, "c", "OUT"))
+        for k, what in tree_diff(tc, tb):
+            errs.append(("flag-history:%s" % k.split("OUT.")[-1], "run %s --complete_genedb after a run %s it under the same HOME: %s %s (compared with "
+                         "the same run on a cold cache)" % ("without" if first_complete else "with", "with" if first_complete else "without", k, what)))
+    shutil.rmtree(d, ignore_errors=True)
+    return ("flag-history", first_complete), errs
+
+
 CLASSES = 5
 
 
@@ -252,6 +285,10 @@ def run(ctx):
         n_ann += 1
         for k, msg in errs:
             ctx.violation(k, msg, {"annotation_case": list(key)})
+    for key, errs in core.pmap(flag_history_case, [(1, ctx.scratch), (0, ctx.scratch)]):
+        n_ann += 1
+        for k, msg in errs:
+            ctx.violation(k, msg, {"flag_history": key[1]})
     ctx.note("annotation representations: %d cases" % n_ann)
     assigns = []
     nfiles = 2 if quick else 3
